@@ -117,6 +117,26 @@ PROPS = {
             'are not stated; int() of a real is modelled as floor (equal to truncation for the non-negative values here)',
         ],
     },
+    'C06': {
+        'contract_modules': ['scheduler_core', 'c06_queue'],
+        'functions': [S + 'utilization', S + 'Allocation.priv_utilization_queue'],
+        'replay': 'c06.py',
+        'assumptions': [
+            'decided for one allocation (Allocation.priv_utilization_queue): each instance exactly once, priority '
+            'order (running before pending, then first come), priority 0 => infinite utilisation, rank rule '
+            '(UNPLACED beyond max_utilization - 1, boosted when the utilisation before the instance is negative), '
+            'and clause 5 in the statement\'s words (cumulative demand within the reservation => boosted rank)',
+            'NOT decided: the merge over sub-allocations (Allocation.utilization_queue: heapq.merge of the '
+            'children\'s queues, re-scoring against total_reserved), hence clauses 1/3/4 across allocations and '
+            'loader.find_assignment; Cell.schedule_alloc consumes that queue under an assumed contract',
+            'sorted(key=) is a dependency contract (a permutation of the input, non-decreasing in the key); '
+            'instance names are atoms ordered by an arbitrary total order; equal global_order would make heapq '
+            'compare Application objects (TypeError) - not reachable inside priv_utilization_queue',
+            'real division by a symbolic positive divisor is an uninterpreted function with the sign law as an axiom; '
+            'np.finfo(float).eps is some positive real; floats as reals (ties in utilisation not modelled)',
+            'generator executed eagerly to the list of yielded values',
+        ],
+    },
     'C14': {
         'contract_modules': ['c14_vipfile', 'c14_rules_endpoints'],
         'functions': ['treadmill.vipfile:VipMgr._alloc', 'treadmill.vipfile:VipMgr.alloc', 'treadmill.vipfile:VipMgr.free',
